@@ -233,6 +233,7 @@ func (ex *Exec) writeEvidence(cfg *PropConfig, tier string, seed int, reps []*Fu
 		"known_findings_matched":   knownMatched,
 		"samples":                  samples,
 		"bounded_assumption_checks": axLines,
+		"facts_derived_from_code":   ex.derivedFacts,
 		"solver_agreement":          agreement(stats),
 		"undecided_clauses":        cfg.Undecided,
 		"load_seconds":             round2(loadS),
